@@ -100,6 +100,9 @@ def violation_record(node, stack, o, tier_kind):
     }
 
 
+_SHRINK = {"spent": 0.0}
+
+
 def check_one(drv, ev, node, stack, kind, shrinkable=True):
     try:
         o = run_case(drv, node, stack)
@@ -127,8 +130,7 @@ def check_one(drv, ev, node, stack, kind, shrinkable=True):
                 except (DriverCrash, DriverTimeout):
                     return False
                 return oo.status == "violation" and oo.reason.split(":")[0] == head
-            ev.extra["shrunk_failures"] = ev.extra.get("shrunk_failures", 0) + 1
-            small = shrink(node, fails, 1500 if ev.extra["shrunk_failures"] <= 4 else 60)
+            small = shrink(node, fails, 1500)
             # Replay three times on a fresh driver before believing it.
             drv.restart()
             oks = 0
